@@ -72,6 +72,8 @@ class CoreScenario(Scenario):
                 o[f"{fid}.{nm}"] = fsm.ongoing(nm)
         for bid, sig in b.branch.items():
             o[f"{bid}.bw"] = sig
+        for bid, sig in b.branch_run.items():
+            o[f"{bid}.run"] = sig
         self.shape_counters()
         # every body of the program must have been built (a harness bug otherwise)
         for bid, body in self.a.bodies.items():
@@ -140,6 +142,9 @@ class CoreScenario(Scenario):
             elif kind == "stall":
                 readies = [md["ready"] for md in self.prog["methods"] if md.get("ready")]
                 st["victim"] = rng.choice(readies) if readies else None
+            elif kind == "hold0":
+                # everything on except one input (a guard, an enable_call, a condition, a ready ...) held low
+                st["victim"] = rng.choice(self.bits) if self.bits else None
             elif kind == "sweep":
                 n = len(self.bits)
                 st["order"] = rng.sample(range(1 << n), min(1 << n, 1 << 10)) if n <= 10 else None
@@ -151,9 +156,9 @@ class CoreScenario(Scenario):
         elif kind == "allon":
             for i in self.bits:
                 stim[i] = int(rng.random() < 0.93)
-        elif kind == "stall":
+        elif kind in ("stall", "hold0"):
             for i in self.bits:
-                stim[i] = int(rng.random() < 0.9)
+                stim[i] = int(rng.random() < (0.9 if kind == "stall" else 0.96))
             if st["victim"]:
                 stim[st["victim"]] = 0
         elif kind == "flap":
@@ -200,8 +205,6 @@ class CoreScenario(Scenario):
         return s.node["k"] & mask(md["iw"])
 
     def run(self, bid, obs):
-        if bid in self.a.branches:
-            return obs[f"{bid}.bw"]
         return obs[f"{bid}.run"]
 
     def rin(self, bid, stim, obs):
@@ -661,7 +664,7 @@ class CoreScenario(Scenario):
         a = self.a
         for cid, (n, encl) in a.conds.items():
             brs = [b["bid"] for b in n["branches"]]
-            ran = [b for b in brs if obs[f"{b}.bw"]]
+            ran = [b for b in brs if obs[f"{b}.run"]]
             erun = bool(self.run(encl, obs))
             conds = [bool(stim.get(b["cond"], 0)) for b in n["branches"] if b.get("cond")]
             if len(ran) > 1:
